@@ -723,6 +723,13 @@ func (e *Env) prelude(name string, n *ast.CallExpr, typeArgs []types.Type, rt ty
 				return Val{t: sx(un, ts...), typ: typeArgs[0]}
 			}
 		}
+	case "hasKey":
+		m := arg(0)
+		k := arg(1)
+		if mt, ok := e.typeOf(n.Args[0]).Underlying().(*types.Map); ok {
+			dom, _ := tr.mapKeys(mt)
+			return Val{t: sx("select", sx("select", tr.memGet(e.st, dom), m.t), k.t), typ: B}
+		}
 	case "nothingModified":
 		var cs []Sx
 		keys := e.havocked
